@@ -466,6 +466,15 @@ def feasible(path: Path) -> bool:
             if pure:
                 if key in known and known[key][0] != pol:
                     return False
+                # truthiness and None-ness of the same expression: X true => `X is None` false; `X is None` true => X false
+                if key.endswith(' is None'):
+                    base = key[:-len(' is None')]
+                    if pol is True and base in known and known[base][0] is True:
+                        return False
+                elif pol is True:
+                    k2 = key + ' is None'
+                    if k2 in known and known[k2][0] is True:
+                        return False
                 known[key] = (pol, chains)
         for name, val in defs.items():
             if isinstance(val, ast.Constant):
